@@ -108,7 +108,97 @@ def class_ancestors(repo, known):
     return res
 
 
-def static_binding(chk, repo, rule='R00.1'):
+def import_closure(repo, prefixes):
+    """Modules of the package reachable through import statements from the
+    modules under `prefixes` (relative and absolute `pgradd...` imports,
+    `from .. import name` where name is a module or sub-package, `import
+    pgradd.x.y`; an imported package contributes its __init__ and, through
+    it, what that imports)."""
+    import posixpath
+    rels = set(m.rel for m in repo.all_mods())
+
+    def as_modules(dotted_path):
+        out = []
+        base = dotted_path.replace('.', '/')
+        if base + '.py' in rels:
+            out.append(base + '.py')
+        if base + '/__init__.py' in rels:
+            out.append(base + '/__init__.py')
+        return out
+    scope = set(r for r in rels if any(r.startswith(p) for p in prefixes))
+    work = list(scope)
+    while work:
+        rel = work.pop()
+        tree = repo.mod(rel).tree
+        pkg = posixpath.dirname(rel).replace('/', '.')
+        for node in ast.walk(tree):
+            targets = []
+            if isinstance(node, ast.ImportFrom):
+                if node.level:
+                    parts = pkg.split('.')
+                    parts = parts[:len(parts) - (node.level - 1)]
+                    base = '.'.join(parts + ([node.module]
+                                             if node.module else []))
+                else:
+                    base = node.module or ''
+                targets.append(base)
+                for a in node.names:
+                    targets.append(base + '.' + a.name)
+            elif isinstance(node, ast.Import):
+                for a in node.names:
+                    targets.append(a.name)
+            for t in targets:
+                for r in as_modules(t):
+                    if r not in scope:
+                        scope.add(r)
+                        work.append(r)
+    return scope
+
+
+#: properties whose code is a self-contained part of the package: the
+#: binding precondition R00.1 is evaluated on the import closure of these
+#: directories only (a decorator added to a thermochemistry method cannot
+#: change what the RING reader or the units algebra compute).  Every other
+#: property is evaluated on the whole package.
+BINDING_SCOPE = {
+    'C08': ('pgradd/RINGParser/', 'pgradd/RDkitWrapper/'),
+    'C09': ('pgradd/RINGParser/', 'pgradd/RDkitWrapper/'),
+    'C16': ('pgradd/RINGParser/', 'pgradd/RDkitWrapper/'),
+    'C17': ('pgradd/RINGParser/', 'pgradd/RDkitWrapper/'),
+    'C10': ('pgradd/Units/',),
+    'C11': ('pgradd/Units/',),
+}
+
+
+def static_binding(chk, repo, rule='R00.1', scope=None):
+    if scope is not None:
+        scope = import_closure(repo, scope)
+        chk.extra['binding_scope'] = sorted(scope)
+        if len(scope) < 5:
+            from .source import AnalysisError
+            raise AnalysisError('binding scope has %d modules' % len(scope))
+    _static_binding(chk, repo, rule, scope)
+
+
+class _Scoped(object):
+    """The repository restricted to the modules of a scope."""
+    def __init__(self, repo, scope):
+        self._repo, self._scope = repo, scope
+
+    def all_mods(self):
+        for m in self._repo.all_mods():
+            if self._scope is None or m.rel in self._scope:
+                yield m
+
+    def __getattr__(self, name):
+        return getattr(self._repo, name)
+
+
+def _static_binding(chk, full_repo, rule, scope):
+    repo = _Scoped(full_repo, scope)
+    in_scope = (lambda rel: True) if scope is None else (
+        lambda rel: rel in scope)
+    wide = scope is None
     """Precondition of every rule: the functions that were analysed are the
     ones that run.  A method is what the class body binds last under its
     name; nothing outside a class body may attach or replace an attribute of
@@ -154,7 +244,7 @@ def static_binding(chk, repo, rule='R00.1'):
                     'from outside its class body, and no module-level '
                     'function is rebound (the analysed functions are the '
                     'ones that run)', found='; '.join(bad))
-    chk.need(rule, n, 20, 'modules')
+    chk.need(rule, n, 20 if wide else 5, 'modules')
     # how a reviewed function is bound (classmethod / staticmethod /
     # property / plain) is part of what was reviewed
     import json
@@ -187,7 +277,7 @@ def static_binding(chk, repo, rule='R00.1'):
            qualname='<package>',
            what='decorator lists of %d reviewed functions compared with '
                 'reviewed/decorators.json' % nfun)
-    chk.need(rule, nfun, 300, 'reviewed functions present')
+    chk.need(rule, nfun, 300 if wide else 40, 'reviewed functions present')
     # a reviewed method that its class no longer defines itself but inherits
     # from a helper base class introduced later (same module, no reviewed
     # counterpart): compared with its reviewed text *as the method of that
@@ -254,6 +344,8 @@ def static_binding(chk, repo, rule='R00.1'):
     for k, anc in sorted(cwant.items()):
         if k not in chave:
             continue        # a vanished class is an anchor error elsewhere
+        if not in_scope(k.split('::')[0]):
+            continue
         ncls += 1
         if chave[k] != anc:
             rel, cname = k.split('::')
@@ -266,7 +358,7 @@ def static_binding(chk, repo, rule='R00.1'):
            qualname='<package>',
            what='ancestor lists of %d classes compared with '
                 'reviewed/classes.json' % ncls)
-    chk.need(rule, ncls, 80, 'reviewed classes present')
+    chk.need(rule, ncls, 80 if wide else 8, 'reviewed classes present')
 
 
 def py2_api(chk, repo, rule='SWEEP.py2api'):
